@@ -87,35 +87,65 @@ func preBytes(pre string, n int) []byte {
 	return nil
 }
 
-// genBuf draws a buffer for a call needing `need` elements from an arena of
-// `arena` elements.  exact: the API requires len(result) == need (label form).
-func genBuf(r *hxlib.Rng, need, arena int, exact bool, first bool) bufSpec {
-	if arena < need || r.Intn(5) < 2 {
+// bufClasses: the generator classes other than "fresh".
+var bufClasses = []string{"kept", "kept_subslice", "ones", "bytefill", "random"}
+
+// genBufClass builds a buffer of the given class for a call needing `need`
+// elements from an arena of `arena` elements.  exact: the API requires
+// len(result) == need (label form), so the slice cannot be longer than needed.
+// A class that does not fit (no room for an offset) degrades to "kept".
+func genBufClass(r *hxlib.Rng, class string, need, arena int, exact bool) bufSpec {
+	if class == "fresh" || arena < need {
 		return bufSpec{fresh: true}
 	}
 	b := bufSpec{}
-	switch k := r.Intn(20); {
-	case k < 8:
+	room := arena - need
+	switch class {
+	case "kept":
 		b.pre = "k"
-	case k < 11:
+		return b
+	case "kept_subslice":
+		b.pre = "k"
+		if room == 0 {
+			return b
+		}
+		if exact || r.Intn(2) == 0 {
+			b.off = 1 + r.Intn(room)
+		}
+		if !exact && (b.off == 0 || r.Intn(2) == 0) {
+			if rest := room - b.off; rest > 0 {
+				b.extra = 1 + r.Intn(rest)
+			} else if b.off == 0 {
+				b.off = 1
+			}
+		}
+		return b
+	case "ones":
 		b.pre = "fff"
-	case k < 13:
+	case "bytefill":
 		b.pre = fmt.Sprintf("f%02x", 1+r.Intn(254))
 	default:
 		b.pre = "r" + hxlib.Hex(r.Bytes(16))
 	}
-	_ = first
-	room := arena - need
 	if room > 0 && r.Intn(2) == 0 {
 		b.off = 1 + r.Intn(room)
 	}
 	if !exact {
-		room = arena - need - b.off
-		if room > 0 && r.Intn(2) == 0 {
-			b.extra = 1 + r.Intn(room)
+		if rest := arena - need - b.off; rest > 0 && r.Intn(2) == 0 {
+			b.extra = 1 + r.Intn(rest)
 		}
 	}
 	return b
+}
+
+// genBuf draws the class at random (2/5 fresh).
+func genBuf(r *hxlib.Rng, need, arena int, exact bool) bufSpec {
+	if r.Intn(5) < 2 {
+		return bufSpec{fresh: true}
+	}
+	cls := []string{"kept", "kept", "kept", "kept_subslice", "kept_subslice", "ones", "ones", "bytefill", "random", "random",
+		"random"}[r.Intn(11)]
+	return genBufClass(r, cls, need, arena, exact)
 }
 
 // labelArena is the receiver's long-lived label array.
